@@ -397,6 +397,58 @@ def check_target(out, st, inp_s, a, f, lat, lon, alt, r, v, date, npath, skind="
                      dict(inp, path_len=npath), observed=val, expected=exp[nm])
 
 
+def check_station_state(out, st, inp_s, a, f, lat, lon, alt, date, ref0, skind="", ckind="", fd_frame=None):
+    """one station: on the ellipsoid at its height along the normal, at the reference position, at rest in the Earth-fixed frames,
+    omega x r in the frames of the rotation axis, velocity = d(position)/dt in inertial frame `fd_frame`"""
+    import numpy as np
+    from beyond.dates import timedelta
+    from beyond.orbits import StateVector
+    lat_d, lon_d = inp_s["latlonalt_deg_m"][:2]
+    # --- the station sits on the ellipsoid at the given height, along the ellipsoid normal
+    origin = StateVector([0, 0, 0, 0, 0, 0], date, "cartesian", st)
+    s_itrf = np.array(origin.copy(frame="ITRF"))
+    out.count(key=("ellipsoid", lat_d, lon_d, alt), kind="station-ellipsoid", station=skind, coords=ckind)
+    L = np.longdouble
+    foot = np.array(s_itrf[:3], dtype=L) - L(alt) * ref0["U"]
+    b = L(a) * (1 - L(f))
+    lhs = (foot[0] ** 2 + foot[1] ** 2) / L(a) ** 2 + foot[2] ** 2 / b ** 2
+    grad = np.array([foot[0] / L(a) ** 2, foot[1] / L(a) ** 2, foot[2] / b ** 2], dtype=L)
+    grad = grad / np.sqrt(grad @ grad)
+    if not (abs(float(lhs - 1)) < 1e-12 and float(np.max(np.abs(grad - ref0["U"]))) < 1e-12):
+        out.fail("station-ellipsoid", "station minus alt*normal is not on the ellipsoid (a, a(1-f)) / the normal there is not the geodetic vertical", inp_s,
+                 observed={"position": list(map(float, s_itrf[:3])), "ellipsoid_lhs_minus_1": float(lhs - 1)}, expected={"position": list(map(float, ref0["s"]))})
+    if not float(np.max(np.abs(np.array(s_itrf[:3], dtype=L) - ref0["s"]))) < 1e-6:
+        out.fail("station-position", "station position differs from the geodetic -> ECEF formula evaluated independently", inp_s,
+                 observed=list(map(float, s_itrf[:3])), expected=list(map(float, ref0["s"])))
+    # --- at rest in the Earth-fixed frames
+    out.count(key=("rest", lat_d, lon_d, alt), kind="station-rest", station=skind)
+    for fr in ("ITRF", "PEF", "TIRF"):
+        vv = np.array(origin.copy(frame=fr))[3:]
+        if not np.all(np.abs(vv) < 1e-12):
+            out.fail("station-not-at-rest-" + fr, f"station has a non-zero velocity in the Earth-fixed frame {fr}", dict(inp_s, date=str(date)), observed=list(map(float, vv)), expected=[0, 0, 0])
+    # --- moves with the Earth's rotation in inertial frames
+    om = 7.292115146706979e-5 * (1 - (date.eop.lod / 1000.0) / 86400.0)
+    for fr in ("TOD", "CIRF"):
+        sv = np.array(origin.copy(frame=fr))
+        exp = np.array([-om * sv[1], om * sv[0], 0.0])
+        out.count(key=("omega", fr, lat_d, lon_d), kind="station-omega-cross-r", frame=fr)
+        if not np.allclose(sv[3:], exp, rtol=0, atol=1e-9):
+            out.fail("station-inertial-velocity-" + fr, "station velocity in the frame of the rotation axis is not omega x r", dict(inp_s, date=str(date), frame=fr),
+                     observed=list(map(float, sv[3:])), expected=list(map(float, exp)))
+    if fd_frame:
+        fr = fd_frame
+        h = 30.0
+        pts = {}
+        for dt in (-2 * h, -h, h, 2 * h):
+            o = StateVector([0, 0, 0, 0, 0, 0], date + timedelta(seconds=dt), "cartesian", st)
+            pts[dt] = np.array(o.copy(frame=fr))[:3]
+        fd = (8 * (pts[h] - pts[-h]) - (pts[2 * h] - pts[-2 * h])) / (12 * h)
+        vv = np.array(origin.copy(frame=fr))[3:]
+        out.count(key=("fd", fr, lat_d, lon_d), kind="station-velocity-finite-difference", frame=fr)
+        if not np.allclose(vv, fd, rtol=0, atol=3e-3):
+            out.fail("station-inertial-velocity-" + fr, "station velocity in an inertial frame is not the time derivative of its position there",
+                     dict(inp_s, date=str(date), frame=fr), observed=list(map(float, vv)), expected=list(map(float, fd)))
+
 def check_coords_kind(out, kind, lat_d, lon_d, alt, a, f):
     """create_station(coordinates of the given numeric kind): position and axes vs the reference evaluated on the exact values"""
     import numpy as np
@@ -482,50 +534,8 @@ def oracle(ctx, widened):
         inp_s = {"latlonalt_deg_m": [lat_d, lon_d, alt], "coords_kind": ckind}
         ref0 = enu_reference(a, f, lat, lon, alt, [0, 0, 0], [0, 0, 0])
         date = d0 + timedelta(seconds=rng.uniform(0, 4e7))
-        # --- the station sits on the ellipsoid at the given height, along the ellipsoid normal
-        origin = StateVector([0, 0, 0, 0, 0, 0], date, "cartesian", st)
-        s_itrf = np.array(origin.copy(frame="ITRF"))
-        out.count(key=("ellipsoid", lat_d, lon_d, alt), kind="station-ellipsoid", station=skind, coords=ckind)
-        L = np.longdouble
-        foot = np.array(s_itrf[:3], dtype=L) - L(alt) * ref0["U"]
-        b = L(a) * (1 - L(f))
-        lhs = (foot[0] ** 2 + foot[1] ** 2) / L(a) ** 2 + foot[2] ** 2 / b ** 2
-        grad = np.array([foot[0] / L(a) ** 2, foot[1] / L(a) ** 2, foot[2] / b ** 2], dtype=L)
-        grad = grad / np.sqrt(grad @ grad)
-        if not (abs(float(lhs - 1)) < 1e-12 and float(np.max(np.abs(grad - ref0["U"]))) < 1e-12):
-            out.fail("station-ellipsoid", "station minus alt*normal is not on the ellipsoid (a, a(1-f)) / the normal there is not the geodetic vertical", inp_s,
-                     observed={"position": list(map(float, s_itrf[:3])), "ellipsoid_lhs_minus_1": float(lhs - 1)}, expected={"position": list(map(float, ref0["s"]))})
-        if not float(np.max(np.abs(np.array(s_itrf[:3], dtype=L) - ref0["s"]))) < 1e-6:
-            out.fail("station-position", "station position differs from the geodetic -> ECEF formula evaluated independently", inp_s,
-                     observed=list(map(float, s_itrf[:3])), expected=list(map(float, ref0["s"])))
-        # --- at rest in the Earth-fixed frames
-        out.count(key=("rest", lat_d, lon_d, alt), kind="station-rest", station=skind)
-        for fr in ("ITRF", "PEF", "TIRF"):
-            vv = np.array(origin.copy(frame=fr))[3:]
-            if not np.all(np.abs(vv) < 1e-12):
-                out.fail("station-not-at-rest-" + fr, f"station has a non-zero velocity in the Earth-fixed frame {fr}", dict(inp_s, date=str(date)), observed=list(map(float, vv)), expected=[0, 0, 0])
-        # --- moves with the Earth's rotation in inertial frames
-        om = 7.292115146706979e-5 * (1 - (date.eop.lod / 1000.0) / 86400.0)
-        for fr in ("TOD", "CIRF"):
-            sv = np.array(origin.copy(frame=fr))
-            exp = np.array([-om * sv[1], om * sv[0], 0.0])
-            out.count(key=("omega", fr, lat_d, lon_d), kind="station-omega-cross-r", frame=fr)
-            if not np.allclose(sv[3:], exp, rtol=0, atol=1e-9):
-                out.fail("station-inertial-velocity-" + fr, "station velocity in the frame of the rotation axis is not omega x r", dict(inp_s, date=str(date), frame=fr),
-                         observed=list(map(float, sv[3:])), expected=list(map(float, exp)))
-        if k % 3 == 0:
-            fr = rng.choice(["EME2000", "MOD", "GCRF", "TEME", "G50"])
-            h = 30.0
-            pts = {}
-            for dt in (-2 * h, -h, h, 2 * h):
-                o = StateVector([0, 0, 0, 0, 0, 0], date + timedelta(seconds=dt), "cartesian", st)
-                pts[dt] = np.array(o.copy(frame=fr))[:3]
-            fd = (8 * (pts[h] - pts[-h]) - (pts[2 * h] - pts[-2 * h])) / (12 * h)
-            vv = np.array(origin.copy(frame=fr))[3:]
-            out.count(key=("fd", fr, lat_d, lon_d), kind="station-velocity-finite-difference", frame=fr)
-            if not np.allclose(vv, fd, rtol=0, atol=3e-3):
-                out.fail("station-inertial-velocity-" + fr, "station velocity in an inertial frame is not the time derivative of its position there",
-                         dict(inp_s, date=str(date), frame=fr), observed=list(map(float, vv)), expected=list(map(float, fd)))
+        check_station_state(out, st, inp_s, a, f, lat, lon, alt, date, ref0, skind, ckind,
+                            rng.choice(["EME2000", "MOD", "GCRF", "TEME", "G50"]) if k % 3 == 0 else None)
         # --- targets: topocentric spherical coordinates vs ENU
         for _ in range(n_tg):
             r, v, tkind = gen_target(rng, [float(c) for c in ref0["s"]], [float(c) for c in ref0["U"]])
@@ -914,6 +924,18 @@ def replay(failure):
         return out
     if fam.startswith("station-coordinates") and isinstance(inp, dict) and "coords_kind" in inp:
         check_coords_kind(out, inp["coords_kind"], *inp["latlonalt_deg_m"], a, f)
+        return out
+    if isinstance(inp, dict) and "latlonalt_deg_m" in inp and "target_itrf" not in inp and "state" not in inp:
+        lat_d, lon_d, alt = inp["latlonalt_deg_m"]
+        ckind = inp.get("coords_kind", "float-tuple")
+        st = new_station(lat_d, lon_d, alt, kind=ckind)
+        lat_d, lon_d, alt = st.c11_deg
+        lat, lon = math.radians(lat_d), math.radians(lon_d)
+        ref0 = enu_reference(a, f, lat, lon, alt, [0, 0, 0], [0, 0, 0])
+        check_station_state(out, st, {"latlonalt_deg_m": [lat_d, lon_d, alt], "coords_kind": ckind}, a, f, lat, lon, alt, date, ref0,
+                            ckind=ckind, fd_frame=inp.get("frame") if inp.get("frame") not in (None, "TOD", "CIRF") else None)
+        drop_station(st)
+        out.failures = [x for x in out.failures if x["family"] == fam] or out.failures
         return out
     if isinstance(inp, dict) and "latlonalt_deg_m" in inp and "target_itrf" in inp:
         lat_d, lon_d, alt = inp["latlonalt_deg_m"]
